@@ -138,7 +138,8 @@ def expand(ctx: Ctx, pid: str, fam: list[dict], rng: random.Random) -> tuple[lis
                  + pick(lambda d: d["phases"][0] == "probing", nb // 5 + 1)
                  + pick(lambda d: d["phases"] == ["stateful"] and d["links"] != "none", nb // 5 + 1)
                  + pick(lambda d: "stateful" in d["phases"] and d["links"] == "none", 2 if quick else 8))     # stateful selected, API without links
-        recipe = {"stop": "all", "ctrlc": "all", "faults": 2 if quick else 6}
+        # quick: a seeded sample of the stop / Ctrl-C positions of every base run; thorough: every position
+        recipe = {"stop": 14 if quick else "all", "ctrlc": 9 if quick else "all", "faults": 2 if quick else 6}
         # transient internal errors inside stateful steps (status consistency between scenario, suite and phase)
         bases = bases + [{"ops": ["ok"], "links": lk, "phases": ["stateful"], "workers": 1, "max_failures": 0, "cof": False,
                           "unique": False, "mf_fault": occ} for lk in ("ok", "bad") for occ in ((1, 2, 3) if quick else (1, 2, 3, 4, 5, 6, 8))]
@@ -155,7 +156,7 @@ def expand(ctx: Ctx, pid: str, fam: list[dict], rng: random.Random) -> tuple[lis
                  + pick(lambda d: d["shape"] == "twin" and d["unique"] and all(b == "ok" for b in d["ops"]), nb // 9 + 1, shaped=True)
                  + pick(lambda d: d["shape"] == "twin" and not d["unique"], 2 if quick else 6, shaped=True)
                  + pick(lambda d: d["shape"] == "authprobe" and all(b in ("ok", "badif") for b in d["ops"]), nb // 9 + 1, shaped=True))
-        recipe = {"stop": 0, "ctrlc": 0, "faults": 10 if quick else 16}
+        recipe = {"stop": 0, "ctrlc": 0, "faults": 7 if quick else 16}
     else:  # C12
         nb = 60 if quick else 250
         bases = (pick(lambda d: d["max_failures"] > 0 and any(b in ("bad", "neterr") for b in d["ops"]), nb // 3)
@@ -212,7 +213,10 @@ def variants(base: dict, ref: dict, recipe: dict, rng: random.Random) -> list[di
         out.append(dict(base, stop_at=k))
     if recipe["ctrlc"]:
         ngets = max(1, nev - 12)  # consumer gets are fewer than yields; positions past the end simply never fire
-        out += [dict(base, ctrlc_at=k) for k in range(1, min(ngets, 25) + 1)]
+        positions = list(range(1, min(ngets, 25) + 1))
+        if recipe["ctrlc"] != "all":
+            positions = sorted(common.sample(rng, positions, recipe["ctrlc"]))
+        out += [dict(base, ctrlc_at=k) for k in positions]
     if recipe["faults"]:
         sites = list(FAULT_SITES_UNIT)   # checks.run also fires inside the stateful phase
         combos = [(s, o, e) for s in sites for o in (1, 2, 4) for e in FAULT_EXC
